@@ -700,6 +700,9 @@ impl FaitAccompli2Sampler {
             .filter(|(i, v)| v.stake.inner() as f64 / total_stake.inner() as f64 > f[*i])
             .map(|(i, v)| v.stake.inner() as f64 / total_stake.inner() as f64 - f[i])
             .sum();
+        // Residual weights are fractions of `r`: express them in units fine enough that small
+        // fractions of a small total stake do not all truncate to zero.
+        let weight_scale = (total_stake.inner() as f64).max((1u64 << 52) as f64);
         let new_stake_distribution: Vec<ValidatorInfo> = validators
             .iter()
             .cloned()
@@ -708,7 +711,7 @@ impl FaitAccompli2Sampler {
                 if v.stake.inner() as f64 / total_stake.inner() as f64 > f[i] {
                     v.stake = Stake::new(
                         ((v.stake.inner() as f64 / total_stake.inner() as f64 - f[i]) / r
-                            * total_stake.inner() as f64) as u64,
+                            * weight_scale) as u64,
                     );
                 } else {
                     v.stake = Stake::new(0);
